@@ -88,7 +88,8 @@ inline void put_le64(Bytes &o, uint64_t u) {
 // ---------------------------------------------------------------------------
 // Writer-call sequences (also ill-formed ones) and their reference encoding.
 
-enum WKind { W_OBJ_B, W_OBJ_E, W_ARR_B, W_ARR_E, W_BOOL, W_INT, W_DBL, W_STR, W_NAME, W_BYTES, W_RAW, W_STR_C, W_NAME_C };
+enum WKind { W_OBJ_B, W_OBJ_E, W_ARR_B, W_ARR_E, W_BOOL, W_INT, W_DBL, W_STR, W_NAME, W_BYTES, W_RAW, W_STR_C, W_NAME_C, W_TO_WRITER };
+// W_TO_WRITER: s holds the bytes of one valid container; the call is binson_parser_to_writer with a parser positioned on it
 
 struct WOp {
     WKind k = W_BOOL;
@@ -130,6 +131,7 @@ inline void encode_op(const WOp &op, size_t call, Bytes &o, std::vector<Piece> *
         break;
     }
     case W_RAW:
+    case W_TO_WRITER:
         o.insert(o.end(), op.s.begin(), op.s.end());
         piece(b, op.s.size(), false);  // raw is written as a single piece (also when empty)
         break;
